@@ -41,6 +41,8 @@ fn mac_digit(acc: &mut [BigDigit], b: &[BigDigit], c: BigDigit) {
     }
 
     let mut carry = 0;
+    #[cfg(num_bigint_verif)]
+    crate::verif_probe::add(crate::verif_probe::Probe::MUL_MAC_ROW_WORK, b.len() as u64);
     let (a_lo, a_hi) = acc.split_at_mut(b.len());
 
     for (a, &b) in a_lo.iter_mut().zip(b) {
@@ -68,6 +70,8 @@ fn mac3(mut acc: &mut [BigDigit], mut b: &[BigDigit], mut c: &[BigDigit]) {
     // Least-significant zeros have no effect on the output.
     if let Some(&0) = b.first() {
         if let Some(nz) = b.iter().position(|&d| d != 0) {
+            #[cfg(num_bigint_verif)]
+            crate::verif_probe::hit(crate::verif_probe::Probe::MUL_STRIP_LOW_ZEROS);
             b = &b[nz..];
             acc = &mut acc[nz..];
         } else {
@@ -76,6 +80,8 @@ fn mac3(mut acc: &mut [BigDigit], mut b: &[BigDigit], mut c: &[BigDigit]) {
     }
     if let Some(&0) = c.first() {
         if let Some(nz) = c.iter().position(|&d| d != 0) {
+            #[cfg(num_bigint_verif)]
+            crate::verif_probe::hit(crate::verif_probe::Probe::MUL_STRIP_LOW_ZEROS);
             c = &c[nz..];
             acc = &mut acc[nz..];
         } else {
@@ -100,6 +106,8 @@ fn mac3(mut acc: &mut [BigDigit], mut b: &[BigDigit], mut c: &[BigDigit]) {
 
     if x.len() <= 32 {
         // Long multiplication:
+        #[cfg(num_bigint_verif)]
+        crate::verif_probe::hit(crate::verif_probe::Probe::MUL_LONG);
         for (i, xi) in x.iter().enumerate() {
             mac_digit(&mut acc[i..], y, *xi);
         }
@@ -156,6 +164,8 @@ fn mac3(mut acc: &mut [BigDigit], mut b: &[BigDigit], mut c: &[BigDigit]) {
         //            = ((z1 - z0) * NBASE ^ m2) + z0
         //            = ((z1 - z0) * NBASE ^ m2) + z0
         //            = (x * high2) * NBASE ^ m2 + z0
+        #[cfg(num_bigint_verif)]
+        crate::verif_probe::hit(crate::verif_probe::Probe::MUL_HALF_KARATSUBA);
         let m2 = y.len() / 2;
         let (low2, high2) = y.split_at(m2);
 
@@ -226,6 +236,8 @@ fn mac3(mut acc: &mut [BigDigit], mut b: &[BigDigit], mut c: &[BigDigit]) {
 
         // When x is smaller than y, it's significantly faster to pick b such that x is split in
         // half, not y:
+        #[cfg(num_bigint_verif)]
+        crate::verif_probe::hit(crate::verif_probe::Probe::MUL_KARATSUBA);
         let b = x.len() / 2;
         let (x0, x1) = x.split_at(b);
         let (y0, y1) = y.split_at(b);
@@ -262,6 +274,8 @@ fn mac3(mut acc: &mut [BigDigit], mut b: &[BigDigit], mut c: &[BigDigit]) {
 
         match j0_sign * j1_sign {
             Plus => {
+            #[cfg(num_bigint_verif)]
+            crate::verif_probe::hit(crate::verif_probe::Probe::MUL_KARATSUBA_PLUS);
                 p.data.truncate(0);
                 p.data.resize(len, 0);
 
@@ -271,6 +285,8 @@ fn mac3(mut acc: &mut [BigDigit], mut b: &[BigDigit], mut c: &[BigDigit]) {
                 sub2(&mut acc[b..], &p.data);
             }
             Minus => {
+                #[cfg(num_bigint_verif)]
+                crate::verif_probe::hit(crate::verif_probe::Probe::MUL_KARATSUBA_MINUS);
                 mac3(&mut acc[b..], &j0.data, &j1.data);
             }
             NoSign => (),
@@ -284,6 +300,8 @@ fn mac3(mut acc: &mut [BigDigit], mut b: &[BigDigit], mut c: &[BigDigit]) {
         // The general idea is to treat the large integers digits as
         // polynomials of a certain degree and determine the coefficients/digits
         // of the product of the two via interpolation of the polynomial product.
+        #[cfg(num_bigint_verif)]
+        crate::verif_probe::hit(crate::verif_probe::Probe::MUL_TOOM3);
         let i = y.len() / 3 + 1;
 
         let x0_len = Ord::min(x.len(), i);
@@ -421,6 +439,8 @@ fn scalar_mul(a: &mut BigUint, b: BigDigit) {
         1 => {}
         _ => {
             if b.is_power_of_two() {
+                #[cfg(num_bigint_verif)]
+                crate::verif_probe::hit(crate::verif_probe::Probe::MUL_SCALAR_POW2);
                 *a <<= b.trailing_zeros();
             } else {
                 let mut carry = 0;
